@@ -582,6 +582,28 @@ def cost_bound(kind, op, args, n, m):
     return bound
 
 
+def cost_slack(bound, op, args, n, m):
+    """the threshold above which a comparison count is reported as a FAILING INPUT of C05.  The property speaks of "a constant
+    multiple of log2(n) plus a constant" / O(n); the bounds proved in PQ/Props/C05.lean carry the constants of the model.  A
+    correct variant of the code may compare a little more (one comparison to decide the sift direction, a different tie
+    preference), so a failing input is only claimed beyond twice the proved bound plus 4 comparisons per element handled (a
+    count between the proved bound and this threshold still breaks the exact count comparison of the correspondence, and is
+    reported as a broken tie without a failing input)."""
+    handled = 1
+    try:
+        if op in ("extend", "from_iter"):
+            handled = max(1, len(entries(args, 2)[0]))
+        elif op == "from_vec":
+            handled = max(1, int(args[0]))
+        elif op in ("append",):
+            handled = max(1, len(entries(args, 1)[0]))
+        elif op in ("retain", "retain_mut", "iter_mut", "convert", "serde_rt", "deser", "deser_hint"):
+            handled = max(1, n, m)
+    except Exception:
+        handled = max(1, n, m)
+    return 2 * bound + 4 * handled
+
+
 def j_cost(kind, pre, ln):
     """C05: comparison counts against the bounds PROVED for the model in PQ/Props/C05.lean (see cost_bound)."""
     if ln.fault or ln.snap is None or ln.snap.dt is None or pre is None:
@@ -590,8 +612,8 @@ def j_cost(kind, pre, ln):
     m = len(ln.snap.map)
     dt = ln.snap.dt
     bound = cost_bound(kind, ln.op, ln.args, n, m)
-    if bound is not None and dt > bound:
-        return "%s on %d elements performed %d comparisons; the proved bound is %d" % (ln.op, n, dt, bound)
+    if bound is not None and dt > cost_slack(bound, ln.op, ln.args, n, m):
+        return "%s on %d elements performed %d comparisons; the bound proved for the model is %d (alarm threshold %d)" % (ln.op, n, dt, bound, cost_slack(bound, ln.op, ln.args, n, m))
     return None
 
 
@@ -669,7 +691,7 @@ def j_cost_crashed(kind, pre, post, op, args):
     if op in ("from_vec", "from_iter"):
         n = m
     bound = cost_bound(kind, op, args, max(n, 1), max(m, 1))
-    if bound is not None and post.dt > bound:
+    if bound is not None and post.dt > cost_slack(bound, op, args, max(n, 1), max(m, 1)):
         return "%s on %d elements, interrupted by a caught panic, performed %d comparisons (unwinding included); the bound proved for the completed call is %d" % (op, n, post.dt, bound)
     return None
 
@@ -941,9 +963,13 @@ def judge_case(prop, kind, lines):
             ln = parse_line(text)
         if ln.op == "iter_mut" and ln.args and ln.args[0] == "forget":
             order_unspecified = True
-        elif ln.op in ("clear", "drain", "from_vec", "from_iter", "deser", "deser_hint", "deser_unit", "fresh", "serde_rt", "convert", "retain", "retain_mut", "append") or (
-                ln.op == "iter_mut" and ln.args and ln.args[0] == "drop"):
-            order_unspecified = False   # these rebuild the whole heap (or empty it)
+        elif ln.op in ("clear", "drain", "from_vec", "from_iter", "deser", "deser_hint", "deser_unit", "fresh", "serde_rt", "convert"):
+            # these produce a NEW queue (or empty it): whatever happened before, the result must be ordered.  The in-place bulk
+            # operations (`retain`, `retain_mut`, `append`, a dropped `iter_mut` guard) happen to rebuild the whole heap in the
+            # unchanged crate, but no property obliges them to REPAIR a queue that a leaked guard or a caught panic had
+            # disordered (C10: the order is unspecified from then on) — an implementation that skips or narrows its rebuild
+            # when it changed nothing is correct, so no failing input is claimed from them on such a queue.
+            order_unspecified = False
         ln.unordered = order_unspecified
         for j in JUDGES.get(prop, []):
             if order_unspecified and j is j_extreme:
